@@ -106,15 +106,18 @@ func run(c *vh.Ctx) error {
 			continue
 		}
 		res.Dist("corpus")
-		still, what := replayWith(drv, body, comments)
-		expectKnown := false
-		for _, cm := range comments {
-			if strings.HasPrefix(cm, "expect-known-finding") {
-				expectKnown = true
+		if len(body) > 0 && strings.HasPrefix(body[0], "B ") {
+			// block scripts: findings that match a known-finding matcher are reported by the probes; anything else fails
+			fs, _ := runScript(drv, body)
+			for _, fd := range fs {
+				if fd.matcher == "" {
+					res.Fail("corpus", "", "corpus witness fails: "+f+": "+fd.kind+": "+fd.what, f)
+				}
 			}
+			continue
 		}
-		if still && !expectKnown {
-			res.Fail("corpus", "", "corpus witness fails again: "+f+": "+what, f)
+		if still, what := replayWith(drv, body, comments); still {
+			res.Fail("corpus", "", "corpus witness fails: "+f+": "+what, f)
 		}
 	}
 
